@@ -807,6 +807,9 @@ fn run_corr(args: &Args) -> Report {
     for d in long_domains(&mut rng) {
         compare(&mut drv, &mut rep, "long", &format!("ta {} S c v {}", CFG, hexb(&d)));
         compare(&mut drv, &mut rep, "long", &format!("ta {} U a r {}", CFG, hexb(&d)));
+        // without DNS length verification the length caps of the label checks are the only limits
+        compare(&mut drv, &mut rep, "long", &format!("ta {} E a i {}", CFG, hexb(&d)));
+        compare(&mut drv, &mut rep, "long", &format!("ta {} U c i {}", CFG, hexb(&d)));
         compare(&mut drv, &mut rep, "long", &format!("ui {} E a 1 {}", CFG, hexb(&d)));
         compare(&mut drv, &mut rep, "long", &format!("ui {} U f 2 {}", CFG, hexb(&d)));
         if d.is_ascii() {
